@@ -1,39 +1,111 @@
-"""Effects of @njit kernels read from their bodies: which parameters are written / read."""
+"""Effects of @njit kernels read from their bodies (assumption A4: serial program order)."""
 from __future__ import annotations
 
 import ast
 
 
 def _root_name(node):
-    while isinstance(node, (ast.Subscript, ast.Attribute)):
-        node = node.value
+    while isinstance(node, (ast.Subscript, ast.Attribute, ast.Call)):
+        if isinstance(node, ast.Call):
+            node = node.func
+        else:
+            node = node.value
     return node.id if isinstance(node, ast.Name) else None
 
 
+def _names(node):
+    return {n.id for n in ast.walk(node) if isinstance(n, ast.Name)}
+
+
+class WriteRec:
+    def __init__(self, param, kind, comps, deps, lineno, aug):
+        self.param, self.kind, self.comps, self.deps, self.lineno, self.aug = param, kind, comps, deps, lineno, aug
+
+    def __repr__(self):
+        return "Write(%s %s comps=%s deps=%s aug=%s)" % (self.param, self.kind, self.comps, sorted(self.deps), self.aug)
+
+
+def _classify_index(sl, loopvars):
+    """'full' for [...], ('marker', comps) for [c.., i] / [i] with i a range-loop variable, else 'partial'"""
+    if isinstance(sl, ast.Constant) and sl.value is Ellipsis:
+        return "full", None
+    elts = sl.elts if isinstance(sl, ast.Tuple) else [sl]
+    if elts and isinstance(elts[-1], ast.Name) and elts[-1].id in loopvars:
+        lead = elts[:-1]
+        comps = []
+        for e in lead:
+            if isinstance(e, ast.Constant) and isinstance(e.value, int):
+                comps.append(e.value)
+            elif isinstance(e, ast.Constant) and e.value is Ellipsis:
+                comps.append("...")
+            else:
+                return "partial", None
+        return "marker", tuple(comps)
+    return "partial", None
+
+
 def numba_effects(nj):
-    fn = nj.fn.node
+    fn = nj.fn.node if hasattr(nj, "fn") else nj
     params = [a.arg for a in fn.args.args]
-    writes, reads = set(), set()
+    recs = []
     aliases = {}
-    for st in ast.walk(fn):
-        if isinstance(st, ast.Assign):
-            for t in st.targets:
-                if isinstance(t, ast.Subscript):
-                    r = _root_name(t)
-                    r = aliases.get(r, r)
-                    if r in params:
-                        writes.add(r)
-                elif isinstance(t, ast.Name):
-                    # local alias of a parameter view
-                    r = _root_name(st.value) if isinstance(st.value, (ast.Subscript, ast.Name, ast.Attribute)) else None
-                    if r in params:
-                        aliases[t.id] = r
-        elif isinstance(st, ast.AugAssign):
-            r = _root_name(st.target)
-            r = aliases.get(r, r)
-            if r in params and isinstance(st.target, ast.Subscript):
-                writes.add(r)
+
+    def visit(stmts, loopvars):
+        for st in stmts:
+            if isinstance(st, ast.For):
+                lv = set(loopvars)
+                if isinstance(st.target, ast.Name) and isinstance(st.iter, ast.Call) and ast.unparse(st.iter.func) == "range":
+                    lv.add(st.target.id)
+                visit(st.body, lv)
+                continue
+            if isinstance(st, (ast.If, ast.While, ast.With)):
+                visit(getattr(st, "body", []), loopvars)
+                visit(getattr(st, "orelse", []), loopvars)
+                continue
+            if isinstance(st, ast.Assign):
+                for t in st.targets:
+                    if isinstance(t, ast.Subscript):
+                        r = _root_name(t)
+                        r = aliases.get(r, r)
+                        if r in params:
+                            kind, comps = _classify_index(t.slice, loopvars)
+                            deps = {aliases.get(n, n) for n in _names(st.value)} | ({aliases.get(n, n) for n in _names(t.slice)} - loopvars)
+                            recs.append(WriteRec(r, kind, comps, deps, st.lineno, False))
+                    elif isinstance(t, ast.Name):
+                        r = _root_name(st.value) if isinstance(st.value, (ast.Subscript, ast.Name, ast.Attribute)) else None
+                        if r in params and isinstance(st.value, (ast.Subscript, ast.Name)):
+                            aliases[t.id] = r
+            elif isinstance(st, ast.AugAssign):
+                r = _root_name(st.target)
+                r = aliases.get(r, r)
+                if r in params:
+                    deps = {aliases.get(n, n) for n in _names(st.value)} | {r}
+                    if isinstance(st.target, ast.Subscript):
+                        kind, comps = _classify_index(st.target.slice, loopvars)
+                        deps |= {aliases.get(n, n) for n in _names(st.target.slice)} - loopvars
+                        recs.append(WriteRec(r, "accumulate", comps, deps, st.lineno, True))
+                    else:
+                        recs.append(WriteRec(r, "inplace", None, deps, st.lineno, True))
+    visit(fn.body, set())
+    writes = {r.param for r in recs}
+    reads = set()
     for n in ast.walk(fn):
         if isinstance(n, ast.Name) and isinstance(n.ctx, ast.Load) and n.id in params:
             reads.add(n.id)
-    return {"params": params, "writes": writes, "reads": reads}
+    per = {}
+    for p in writes:
+        rs = [r for r in recs if r.param == p]
+        overwrite = all((r.kind in ("full", "marker")) and not r.aug and p not in r.deps for r in rs[:1]) and rs[0].kind in ("full", "marker")
+        # first write decides whether earlier content survives; later in-place updates read the new content
+        first = rs[0]
+        mode = "overwrite" if (first.kind in ("full", "marker") and not first.aug and p not in first.deps) else "update"
+        comps = None
+        if mode == "overwrite" and first.kind == "marker":
+            comps = {r.comps for r in rs if r.kind == "marker" and not r.aug}
+        deps = set()
+        for r in rs:
+            deps |= r.deps
+        if mode == "overwrite":
+            deps.discard(p)
+        per[p] = {"mode": mode, "comps": comps, "deps": deps & set(params), "free": deps - set(params), "records": rs}
+    return {"params": params, "writes": writes, "reads": reads, "per": per, "records": recs}
